@@ -882,7 +882,7 @@ def subst(t, m):
     """substitute sub-terms according to dict m (term -> term)."""
     if t in m:
         return m[t]
-    if not isinstance(t, tuple):
+    if not isinstance(t, tuple) or not t:
         return t
     k = t[0]
     if k in ('int', 'bool', 'var'):
@@ -915,9 +915,9 @@ def rebuild(t):
         return mk_or(t[1], t[2])
     if k == 'ite':
         return mk_ite(t[1], t[2], t[3])
-    if k == 'discr' and isinstance(t[1], tuple) and t[1] and t[1][0] == 'mk' and t[1][1] in _STD_VARIANTS and t[1][2] in _STD_VARIANTS[t[1][1]]:
+    if k == 'discr' and len(t) > 1 and isinstance(t[1], tuple) and len(t[1]) == 4 and t[1][0] == 'mk' and t[1][1] in _STD_VARIANTS and t[1][2] in _STD_VARIANTS[t[1][1]]:
         return I(_STD_VARIANTS[t[1][1]][t[1][2]])       # discriminant of a concrete Option / Result value
-    if k == 'vfld' and isinstance(t[1], tuple) and t[1] and t[1][0] == 'mk' and t[1][2] == t[2] and str(t[3]).isdigit() and int(t[3]) < len(t[1][3]):
+    if k == 'vfld' and len(t) == 4 and isinstance(t[1], tuple) and len(t[1]) == 4 and t[1][0] == 'mk' and t[1][2] == t[2] and isinstance(t[1][3], tuple) and str(t[3]).isdigit() and int(t[3]) < len(t[1][3]):
         return t[1][3][int(t[3])]                        # payload of a concrete enum value
     return t
 
